@@ -302,7 +302,7 @@ Proof.
       * destruct (d_log s); [exact I |]. intros t Ht Hawt. apply i_next0; [lia | exact Hawt].
   - (* Reset *)
     unfold step in Hs.
-    destruct ((d_clock s <=? t) && st_done [d_hs s]) eqn:G; [| discriminate].
+    destruct ((d_clock s <=? t) && (st_done [d_hs s] && negb (s_failure (d_hs s)))) eqn:G; [| discriminate].
     injection Hs as <-.
     apply inv_scratch. constructor; [apply inv_lifetime; exact HI | destruct HI; exact i_past0].
 Qed.
@@ -442,8 +442,8 @@ Proof.
   induction fuel as [|f IH]; intros e c iv sharp stop now sc s Hc.
   - eexists; reflexivity.
   - cbn [tmr_trace]. destruct (stop_set stop now); [eexists; reflexivity |].
-    destruct (st_done [d_hs s]) eqn:Hdone.
-    + (* reset, then the iteration from scratch *)
+    destruct (st_done [d_hs s] && negb (s_failure (d_hs s))) eqn:Hdone.
+    + (* reset (only after a success), then the iteration from scratch *)
       set (s0 := mkD (from_scratch now) now [] (d_log s :: d_past s)).
       assert (Hreset : step e c s (Reset now) = Some s0).
       { unfold step. rewrite Hdone. assert (G : d_clock s <=? now = true) by (apply Z.leb_le; lia). rewrite G. reflexivity. }
@@ -494,35 +494,98 @@ Proof.
   constructor; [apply inv_lifetime; exact HI | destruct HI; exact i_past0].
 Qed.
 
-(* ... but over the timer's whole life the statement is false (F9) *)
+(* ... and over the timer's WHOLE life (fix e01f313: the state is reset only after a success):
+   a failed handler is never entered again, whatever labels follow, resets included *)
+Lemma failure_stuck_step : forall e c s l s', s_failure (d_hs s) = true ->
+  step e c s l = Some s' -> d_hs s' = d_hs s /\ d_log s' = d_log s /\ d_past s' = d_past s.
+Proof.
+  intros e c s [ta tc tx te r | t] s' Hf Hs; unfold step in Hs.
+  - destruct ((d_clock s <=? ta) && (ta <=? tc) && (tc <=? tx) && (tx <=? te)); [| discriminate].
+    assert (Hfin : finished (d_hs s) = true) by (unfold finished; rewrite Hf; apply orb_true_r).
+    rewrite (finished_not_awakened _ _ Hfin) in Hs. injection Hs as <-. simpl. auto.
+  - rewrite Hf in Hs. simpl in Hs. rewrite !andb_false_r in Hs. discriminate.
+Qed.
+
+Lemma failure_stuck : forall e c tr s s', s_failure (d_hs s) = true ->
+  run e c s tr = Some s' -> d_hs s' = d_hs s /\ d_log s' = d_log s /\ d_past s' = d_past s.
+Proof.
+  intros e c tr; induction tr as [|l tr IH]; intros s s' Hf Hr; simpl in Hr.
+  - injection Hr as <-; auto.
+  - destruct (step e c s l) as [s1|] eqn:Hs; [| discriminate].
+    destruct (failure_stuck_step _ _ _ _ _ Hf Hs) as [H1 [H2 H3]].
+    assert (Hf1 : s_failure (d_hs s1) = true) by (rewrite H1; exact Hf).
+    destruct (IH s1 s' Hf1 Hr) as [K1 [K2 K3]]. rewrite K1, K2, K3. auto.
+Qed.
+
+(* a state lifetime is ended (Reset) only at a success *)
+Lemma reset_only_after_success : forall e c t0 tr s t s',
+  run e c (init t0) tr = Some s -> step e c s (Reset t) = Some s' ->
+  s_success (d_hs s) = true /\ s_failure (d_hs s) = false /\ d_past s' = d_log s :: d_past s /\ d_log s' = [].
+Proof.
+  intros e c t0 tr s t s' Hr Hs.
+  assert (HI : Inv e c s) by (eapply run_inv; [apply inv_init | exact Hr]).
+  unfold step in Hs.
+  destruct ((d_clock s <=? t) && (st_done [d_hs s] && negb (s_failure (d_hs s)))) eqn:G; [| discriminate].
+  injection Hs as <-. simpl.
+  apply andb_prop in G; destruct G as [_ G]. apply andb_prop in G; destruct G as [Hd Hnf].
+  destruct HI. rewrite (st_done_single _ i_active0) in Hd.
+  apply negb_true_iff in Hnf. unfold finished in Hd. rewrite Hnf in Hd. rewrite orb_false_r in Hd.
+  auto.
+Qed.
+
+Lemma thm_failed_forever : forall e c t0 tr1 tr2 s1 s2,
+  run e c (init t0) tr1 = Some s1 -> s_failure (d_hs s1) = true ->
+  run e c s1 tr2 = Some s2 ->
+  d_hs s2 = d_hs s1 /\ d_log s2 = d_log s1 /\ whole s2 = whole s1.
+Proof.
+  intros e c t0 tr1 tr2 s1 s2 _ Hf Hr.
+  destruct (failure_stuck _ _ _ _ _ Hf Hr) as [H1 [H2 H3]].
+  split; [exact H1 |]. split; [exact H2 |]. unfold whole. rewrite H2, H3. reflexivity.
+Qed.
+
+(* the timer over its whole life: every lifetime (they end only at successes) has at most N entries, the
+   entries since the last success are the current log, and once failed nothing is entered ever again *)
+Lemma timer_whole_life : forall fuel e c iv sharp stop t0 sc,
+  exists s, run e c (init t0) (tmr_trace fuel e c iv sharp stop t0 (from_scratch t0) sc) = Some s /\
+    Forall (lifetime_ok e c) (d_log s :: d_past s) /\
+    (forall N, c_retries c = Some N ->
+       Forall (fun log => Z.of_nat (List.length log) <= Z.max 0 N) (d_log s :: d_past s)) /\
+    (s_failure (d_hs s) = true -> forall tr2 s2, run e c s tr2 = Some s2 ->
+       d_hs s2 = d_hs s /\ whole s2 = whole s).
+Proof.
+  intros. destruct (timer_lifetimes_ok fuel e c iv sharp stop t0 sc) as [s [Hr Hl]].
+  exists s. split; [exact Hr |]. split; [exact Hl |]. split.
+  - intros N HN. eapply Forall_impl; [| exact Hl]. intros log [H _]. apply H. exact HN.
+  - intros Hf tr2 s2 Hr2. destruct (thm_failed_forever _ _ _ _ _ _ _ Hr Hf Hr2) as [H1 [_ H3]]. auto.
+Qed.
+
+(* regression witnesses of the former finding F9: a permanently failing timer is entered exactly once,
+   a timer with retries=1 exactly once, however long it keeps ticking *)
 Definition f9_env := mkEnv MTemporary 60000.
 Definition f9_cfg_perm := mkCfg None None None None.
 Definition f9_cfg_retries := mkCfg None None (Some 1) (Some 0).
 
-Lemma timer_failed_for_good_refuted :
-  exists fuel e c iv sc s a b rest,
-    run e c (init 0) (tmr_trace fuel e c (Some iv) false None 0 (from_scratch 0) sc) = Some s /\
-    whole s = a :: b :: rest /\
-    en_raised a = RPerm /\ is_none (o_exn (fst (exec e c (en_retry a) 0 0 (en_raised a)))) = false /\
-    en_end a < en_time b.
-Proof.
-  exists 3%nat, f9_env, f9_cfg_perm, 10000, [(RPerm, 0); (RPerm, 0); (RPerm, 0)].
-  eexists. eexists. eexists. eexists.
-  split; [vm_compute; reflexivity |].
-  split; [vm_compute; reflexivity |].
-  vm_compute. repeat split; reflexivity.
-Qed.
+Example timer_permanent_error_once :
+  option_map (map obs_of)
+    (entries_of f9_env f9_cfg_perm 0
+       (tmr_trace 6 f9_env f9_cfg_perm (Some 10000) false None 0 (from_scratch 0) [(RPerm, 0); (RPerm, 0); (RPerm, 0)]))
+  = Some [(0, 0, 0)].
+Proof. vm_compute. reflexivity. Qed.
 
-Lemma timer_retries_bound_refuted :
-  exists fuel e c iv sc s N,
-    run e c (init 0) (tmr_trace fuel e c (Some iv) false None 0 (from_scratch 0) sc) = Some s /\
-    c_retries c = Some N /\ Z.max 0 N < Z.of_nat (List.length (whole s)).
-Proof.
-  exists 3%nat, f9_env, f9_cfg_retries, 10000, [(RArb, 0); (RArb, 0); (RArb, 0)].
-  eexists. exists 1.
-  split; [vm_compute; reflexivity |].
-  split; [reflexivity |]. vm_compute. reflexivity.
-Qed.
+Example timer_retries_exhausted_once :
+  option_map (map obs_of)
+    (entries_of f9_env f9_cfg_retries 0
+       (tmr_trace 6 f9_env f9_cfg_retries (Some 10000) false None 0 (from_scratch 0) [(RArb, 0); (RArb, 0); (RArb, 0)]))
+  = Some [(0, 0, 0)].
+Proof. vm_compute. reflexivity. Qed.
+
+(* ... while after a success the timer legitimately starts from scratch every interval *)
+Example timer_success_repeats :
+  option_map (map obs_of)
+    (entries_of f9_env f9_cfg_retries 0
+       (tmr_trace 3 f9_env f9_cfg_retries (Some 10000) false None 0 (from_scratch 0) []))
+  = Some [(0, 0, 0); (10000, 0, 10000); (20000, 0, 20000)].
+Proof. vm_compute. reflexivity. Qed.
 
 (* ------------------------------------------------------------------ the persisted driver *)
 
